@@ -506,6 +506,8 @@ def check_c01(pid, tier, seed, replay):
         # (R) every explored behaviour, command by command, through execute_one
         trace = run_steps(ck, cases, slice_, maxsteps=steps + 6)
         validate_traces(ck, trace, 14, classify_c01, "R-%s" % slice_)
+        if ck.enough():
+            return ck.finish()
         ck.cov["exhaustive"] = True
         # the same behaviours through the real binary (whole-run observation), a seeded sample
         sub = os.path.join(os.path.dirname(cases), "bin_cases.json")
